@@ -2,7 +2,7 @@
 import os, re, shutil, time
 from checklib import (WORK, BUILD, log, build_all, scan_forbidden, proof_obligations, run_family,
                       load_known, match_known, write_replay, write_replay_text, write_evidence,
-                      sample_of, TRUSTED_BASE)
+                      sample_of, TRUSTED_BASE, read_replay)
 
 STRUCT = {"model:top", "model:mid", "model:base", "model:clean", "model:ll", "model:store",
           "model:cached", "model:not-enabled", "harness-error", "driver-error", "model:dirtysegs",
@@ -45,11 +45,19 @@ PROPS = {
         technique="Coq proof (merge_range satisfies merged_ok for an arbitrary operator) + lock-step correspondence",
     ),
     "C10": dict(
-        runs=[("coll", "flat", "flatrun", 320, 6000, 24), TREE + (160, 3000, 24)],
+        runs=[("coll", "flat", "flatrun", 320, 6000, 24), TREE + (160, 3000, 24),
+              ("coll", "nilmerge", "flatrun", 48, 800, 22), ("conc", "", "concrun", 100, 2000, 0)],
         corr=STRUCT | READS | {"model:cget", "tmodel:cget"}, corr_held=False,
-        spec={"spec:cget", "spec:gets", "spec:iter", "tspec:reads", "tspec:cget"}, spec_held=False,
-        rule="at every label Collection.Get, Snapshot.Get and iteration are read for every universe key and compared "
-             "with each other through the reference; non-trivial = a key has operations in >= 2 sections",
+        spec={"spec:cget", "spec:gets", "spec:iter", "tspec:reads", "tspec:cget", "spec:copied-value-not-intact",
+              "spec:nocopy-differs", "spec:fresh-snapshot-behind-get", "spec:history"}, spec_held=False,
+        rule="every value a copying Get returns is retained (the slice itself) with a private copy and compared after every "
+             "later label and after snapshot, collection and store are closed (reads that fault are caught); every Get is "
+             "repeated with NoCopyValue; the operator returns its existing value uncopied for the operand '='; "
+             "free-running histories (the concurrent family of C03) in which a fresh snapshot must never be behind what "
+             "Collection.Get just returned and the final, quiescent reads must show every batch; "
+             "at every label Collection.Get, Snapshot.Get and iteration are read for every universe key and compared "
+             "with each other through the reference; plus cases whose operator returns nil for the operand '!' "
+             "(the known finding F17b lives there); non-trivial = a key has operations in >= 2 sections",
         technique="Coq proof (Collection.Get = Snapshot.Get on every reachable state) + three read paths at every label",
     ),
     "C13": dict(
@@ -74,7 +82,8 @@ PROPS = {
     "C03": dict(
         runs=[("conc", "", "concrun", 200, 4000, 0), TREE + (120, 2000, 24)],
         corr=STRUCT | READS, corr_held=False,
-        spec={"spec:history", "spec:call-did-not-return", "spec:batch-failed", "tspec:reads"}, spec_held=False,
+        spec={"spec:history", "spec:call-did-not-return", "spec:batch-failed", "tspec:reads",
+              "spec:fresh-snapshot-behind-get"}, spec_held=False,
         rule="free-running histories: 2-4 writers on disjoint key sets (each batch overwrites a marker and three payload "
              "keys, adds a unique key, and writes a child collection in half of the cases), 1-3 snapshot readers, "
              "MaxPreMergerBatches 1-2 so that writers block, merger/persister/compactor ungated with short stalls "
@@ -111,13 +120,17 @@ PROPS = {
         technique="Coq proof (every failure pattern of a round: success means served, failure surfaced and harmless, old file removed only after a complete footer) + fault injection by predicate on recorded workloads",
     ),
     "C07": dict(
-        runs=[("coll", "store", "flatrun", 320, 6000, 30), TREE + (200, 3000, 30)],
+        runs=[("coll", "store", "flatrun", 320, 6000, 30), TREE + (200, 3000, 30), ("refs", "", "refsrun", 48, 1000, 0)],
         corr=STRUCT | READS, corr_held=False,
-        spec={"spec:gets", "spec:iter", "tspec:reads"}, spec_held=False,
+        spec={"spec:gets", "spec:iter", "tspec:reads", "spec:full-compaction-shape", "tspec:full-compaction-shape",
+              "spec:stale-files", "spec:leaked-fd", "spec:leaked-mapping"}, spec_held=False,
         rule="store-backed collections with CompactionConcern disable/allow/force, level parameters 1-4 / 2-9, "
              "fragmentation thresholds 0.1/0.65/0.99, buffer pages 1/512, sync options; the footer's segment list "
              "after every persistence round (append, partial compaction at the observed splice point, full "
-             "compaction) is compared segment by segment with the model's; non-trivial = >= 2 sections share a key",
+             "compaction) is compared segment by segment with the model's; after every full compaction every "
+             "collection of the footer tree must hold at most one segment, strictly ascending, without deletion "
+             "markers; superseded data files must be gone from the directory, /proc/self/fd and /proc/self/maps once "
+             "every handle is closed (the handle-lifetime family); non-trivial = >= 2 sections share a key",
         technique="Coq proof (compaction at every splice point preserves reads; full-compaction shape) + lock-step on the store footer",
     ),
     "C14": dict(
@@ -253,10 +266,10 @@ PROPS = {
 def relevant(kinds, spec):
     corr, sp = [], []
     for k in kinds:
-        if re.match(r"model:held\d+", k):
+        if re.match(r"t?model:held\d+", k):
             if spec["corr_held"]:
                 corr.append(k)
-        elif re.match(r"spec:held\d+", k):
+        elif re.match(r"t?spec:held\d+", k):
             if spec["spec_held"]:
                 sp.append(k)
         elif k in spec["corr"]:
@@ -267,25 +280,34 @@ def relevant(kinds, spec):
 
 
 def classify(pid, spec, cases, known):
+    """Per case: every mismatch is looked at.  A specification mismatch (implementation against the
+    reference) that no known finding explains makes the case a violation, even when an earlier
+    mismatch of the same case only broke the correspondence (the specification oracles do not
+    depend on the model's state); otherwise the first correspondence mismatch counts."""
     viol, corr_breaks, known_hits = [], [], []
     for c in cases:
         if c["verdict"] in ("MISSING",):
             corr_breaks.append((c, "no verdict from the model runner"))
             continue
+        first_corr, first_spec, hit = None, None, None
         for m in c["mismatches"]:
             corr, sp = relevant(m["kinds"], spec)
             if not corr and not sp:
                 continue
             k = match_known(pid, c, m, known)
             if k is not None:
-                known_hits.append((c, k))
-                break
-            if sp:
-                viol.append((c, "specification violated at step %d (%s): %s" % (m["step"], m["label"], ",".join(sp))))
-            else:
-                corr_breaks.append((c, "model and implementation differ at step %d (%s): %s" %
-                                    (m["step"], m["label"], ",".join(corr))))
-            break
+                hit = hit or k
+                continue
+            if sp and first_spec is None:
+                first_spec = "specification violated at step %d (%s): %s" % (m["step"], m["label"], ",".join(sp))
+            elif corr and first_corr is None:
+                first_corr = "model and implementation differ at step %d (%s): %s" % (m["step"], m["label"], ",".join(corr))
+        if hit is not None:
+            known_hits.append((c, hit))
+        if first_spec is not None:
+            viol.append((c, first_spec))
+        elif first_corr is not None and hit is None:
+            corr_breaks.append((c, first_corr))
     return viol, corr_breaks, known_hits
 
 
@@ -382,6 +404,48 @@ def run_c17(pid, tier, seed, replay):
         shutil.rmtree(work, ignore_errors=True)
 
 
+def replay_case(pid, spec, replay, workdir, known, problems):
+    """check <ID> --replay FILE: regenerate the shard the case came from (same family, mode, count
+    and director seed: every random choice derives from them), re-execute it against /repo's working
+    tree, run the model over it and judge only the replayed case.  Exit 1 + VIOLATION when it still
+    fails, exit 0 when it no longer does.  Evidence files are not rewritten by a replay."""
+    rr, recorded = read_replay(replay)
+    if problems:
+        print("VIOLATION property=%s replay=%s no-failing-input-found" % (pid, replay))
+        log("\n".join(problems))
+        return 1
+    if not rr:
+        log("%s: replay file carries no rerun line (a proof/table replay): run the check itself" % pid)
+        return 2
+    cases, _, herrs = run_family(rr["family"], rr["mode"], rr["n"], rr["labels"], 0, rr["runner"], workdir,
+                                 extra=rr.get("extra") or None, only=(rr["n"], rr["dseed"]))
+    mine = [c for c in cases if c["case"] == rr["case"]]
+    if not mine:
+        log("%s: replayed shard produced no case %d (%s)" % (pid, rr["case"], "; ".join(herrs[:3])))
+        print("VIOLATION property=%s replay=%s no-failing-input-found" % (pid, replay))
+        return 1
+    same = "".join(mine[0]["labels"]) == "".join(__import__("checklib").case_labels(recorded)) if recorded else None
+    viol, corr_breaks, known_hits = classify(pid, spec, mine, known)
+    for c, k in known_hits:
+        print("KNOWN-FINDING: property=%s %s: %s" % (pid, k["id"], k["what"]))
+    for c, why in viol + corr_breaks:
+        log("%s: replay still fails: %s" % (pid, why))
+        for m in c["mismatches"][:3]:
+            for d in m["detail"][:6]:
+                log("    " + d[:400])
+    log("%s: replayed case %d of %s/%s seed %s: labels %s the recorded ones" %
+        (pid, rr["case"], rr["family"], rr["mode"], rr["dseed"],
+         "identical to" if same else ("differ from (scheduling- or code-dependent generation)" if same is not None else "not compared with")))
+    if viol:
+        print("VIOLATION property=%s replay=%s" % (pid, replay))
+        return 1
+    if corr_breaks:
+        print("VIOLATION property=%s replay=%s no-failing-input-found" % (pid, replay))
+        return 1
+    log("%s: replay no longer fails" % pid)
+    return 0
+
+
 def run_property(pid, tier, seed, replay):
     if pid == "C17":
         return run_c17(pid, tier, seed, replay)
@@ -420,8 +484,7 @@ def _run(pid, spec, tier, seed, replay, workdir, known, t0):
         pass
     else:
         if replay:
-            runs = []
-            log("replay mode is handled by the director: %s" % replay)
+            return replay_case(pid, spec, replay, workdir, known, problems)
         for (family, mode, runner, nq, nt, labels) in spec["runs"]:
             n = nq if tier == "quick" else nt
             cases, h, he = run_family(family, mode, n, labels, seed, runner, workdir)
